@@ -3,13 +3,14 @@ package main
 // SMT-LIB helpers: sorts for Go types, literals, prelude.
 
 import (
+	"os"
 	"fmt"
 	"go/types"
 	"sort"
 	"strings"
 )
 
-const prelude = `(set-option :produce-models true)
+const prelude0 = `(set-option :produce-models true)
 (set-logic ALL)
 (declare-datatypes ((Path 0)) (((PNil) (PF (pf_p Path) (pf_f Int)) (PE (pe_p Path) (pe_i (_ BitVec 64))))))
 (declare-datatypes ((Loc 0)) (((mkLoc (base Int) (path Path)))))
@@ -69,6 +70,18 @@ func mask(w int) uint64 {
 	return (uint64(1) << uint(w)) - 1
 }
 func bv64(v int64) string { return bv(64, uint64(v)) }
+
+// prelude: with GOVC_XADD=1 the index sum inside elem is an uninterpreted function with a
+// defining axiom instead of bvadd (experiment: z3 normalises bvadd sums, which defeats
+// syntactic trigger matching on (select H (elem s i))).
+var prelude = func() string {
+	if os.Getenv("GOVC_XADD") != "1" {
+		return prelude0
+	}
+	return strings.Replace(prelude0,
+		"(define-fun elem ((s Slice) (i (_ BitVec 64))) Loc (mkLoc (base (s_arr s)) (PE (path (s_arr s)) (bvadd (s_off s) i))))",
+		"(declare-fun xadd ((_ BitVec 64) (_ BitVec 64)) (_ BitVec 64))\n(assert (forall ((a (_ BitVec 64)) (b (_ BitVec 64))) (! (= (xadd a b) (bvadd a b)) :pattern ((xadd a b)))))\n(define-fun elem ((s Slice) (i (_ BitVec 64))) Loc (mkLoc (base (s_arr s)) (PE (path (s_arr s)) (xadd (s_off s) i))))", 1)
+}()
 
 // ---- type environment: struct datatypes etc.
 
